@@ -186,6 +186,9 @@ pub struct Report {
     pub assumptions: Vec<String>,
     evaluations: AtomicU64,
     excluded_known: AtomicU64,
+    /// Non-trivial cases counted by enumerating drivers whose cases are
+    /// distinct by construction (enumeration index), not via the hash set.
+    nontrivial_counted: AtomicU64,
     inconclusive: AtomicBool,
     inner: Mutex<ReportInner>,
     known: Vec<KnownFinding>,
@@ -207,6 +210,7 @@ impl Report {
             assumptions: Vec::new(),
             evaluations: AtomicU64::new(0),
             excluded_known: AtomicU64::new(0),
+            nontrivial_counted: AtomicU64::new(0),
             inconclusive: AtomicBool::new(false),
             inner: Mutex::new(ReportInner::default()),
             known,
@@ -267,6 +271,10 @@ impl Report {
             key.hash(&mut h);
             g.nontrivial.insert(h.finish());
         }
+    }
+    /// Count `n` non-trivial cases that are distinct by construction.
+    pub fn add_nontrivial_count(&self, n: u64) {
+        self.nontrivial_counted.fetch_add(n, Ordering::Relaxed);
     }
     pub fn add_class(&self, sub: &str, class: &str, n: u64) {
         let mut g = self.lock();
@@ -364,7 +372,8 @@ impl Report {
             && g.exhaustive_subs.len() == g.sub_evals.len();
         let mut coverage = serde_json::Map::new();
         coverage.insert("evaluations".into(), json!(self.evaluations()));
-        coverage.insert("distinct_nontrivial".into(), json!(g.nontrivial.len()));
+        let distinct = g.nontrivial.len() as u64 + self.nontrivial_counted.load(Ordering::Relaxed);
+        coverage.insert("distinct_nontrivial".into(), json!(distinct));
         coverage.insert("rule".into(), json!(self.rule));
         coverage.insert("samples".into(), json!(g.samples));
         coverage.insert("classes".into(), json!(g.classes));
@@ -415,7 +424,7 @@ impl Report {
             tier.name(),
             seed,
             self.evaluations(),
-            g.nontrivial.len(),
+            distinct,
             g.violations.len(),
             wall
         );
@@ -427,6 +436,20 @@ impl Report {
             0
         }
     }
+}
+
+/// Set once any check in this process has observed a failure. Checks that use
+/// generous waits for "must return promptly" obligations consult it to shorten
+/// those waits while a failure is being shrunk (the original failure was
+/// observed with the full wait).
+static FAILURE_SEEN: AtomicBool = AtomicBool::new(false);
+
+pub fn failure_seen() -> bool {
+    FAILURE_SEEN.load(Ordering::Relaxed)
+}
+
+pub fn note_failure() {
+    FAILURE_SEEN.store(true, Ordering::Relaxed);
 }
 
 pub fn hash_of<T: Hash>(t: &T) -> u64 {
@@ -503,11 +526,17 @@ pub fn run_prop_threads<C>(
                     rng_seed: RngSeed::Fixed(seed),
                     failure_persistence: None,
                     max_shrink_iters: 4096,
+                    max_shrink_time: 30_000,
                     max_global_rejects: 65536,
                     ..Config::default()
                 };
                 let mut runner = TestRunner::new(config);
                 let failing = AtomicBool::new(false);
+                // The most recent failing (case, failure): proptest only keeps a
+                // simplification that fails, so this is the shrunk case together
+                // with the failure actually observed on it (schedule-dependent
+                // failures may not reproduce on a re-run).
+                let last_fail: Mutex<Option<(Value, Fail)>> = Mutex::new(None);
                 let result = runner.run(&strat, |case| {
                     if stop.load(Ordering::Relaxed) && !failing.load(Ordering::Relaxed) {
                         return Ok(());
@@ -531,6 +560,9 @@ pub fn run_prop_threads<C>(
                             } else {
                                 failing.store(true, Ordering::Relaxed);
                                 stop.store(true, Ordering::Relaxed);
+                                note_failure();
+                                let v = serde_json::to_value(&case).unwrap_or(Value::Null);
+                                *last_fail.lock().unwrap() = Some((v, f.clone()));
                                 Err(TestCaseError::fail(f.sig.clone()))
                             }
                         }
@@ -539,13 +571,20 @@ pub fn run_prop_threads<C>(
                 match result {
                     Ok(()) => {}
                     Err(TestError::Fail(_, case)) => {
-                        let v = serde_json::to_value(&case).unwrap_or(Value::Null);
-                        let f = match guarded(check, &case) {
-                            Err(f) => f,
-                            Ok(_) => Fail::new(
-                                "nondeterministic",
-                                "shrunk case passed on re-run (schedule-dependent failure)",
-                            ),
+                        let stored = last_fail.lock().unwrap().take();
+                        let (v, f) = match stored {
+                            Some(x) => x,
+                            None => {
+                                let v = serde_json::to_value(&case).unwrap_or(Value::Null);
+                                let f = match guarded(check, &case) {
+                                    Err(f) => f,
+                                    Ok(_) => Fail::new(
+                                        "nondeterministic",
+                                        "failing case passed on re-run (schedule-dependent failure)",
+                                    ),
+                                };
+                                (v, f)
+                            }
                         };
                         rep.fail(sub, &v, &f, seed);
                     }
